@@ -24,6 +24,7 @@ import Rdm.Lemmas.MapOrderLoops
 import Rdm.Lemmas.MapOrderChoquet
 import Rdm.Lemmas.MapOrderParse
 import Rdm.Lemmas.MapOrderListener
+import Rdm.Lemmas.MapOrderAnchoring
 import Rdm.Props.C07
 import Rdm.Lemmas.E2EServiceBatch
 import Rdm.Lemmas.E2EExamples
@@ -381,14 +382,12 @@ theorem facts_fresh : (Facts.staleFacts.all fun n => !["choquetEps"].contains n)
     model/weights.go:Weights.Copy ........................... copy_is_identity, mergeDisjoint_map_order (other = [])
     model/weights.go:Weights.Merge (loop 1, copy) ........... mergeDisjoint_map_order, mergeParams_map_order
     model/weights.go:Weights.Merge (loop 2, add) ............ mergeDisjoint_map_order, mergeParams_map_order
-    anchoring/anchoring.go:matchScalingWithBounding ......... no model in this tree — differential repetition only
-    anchoring/ideal-reference-…:extractCriteriaValues ....... no model in this tree — differential repetition only
-    anchoring/ideal-reference-…:prepareCriteriaWithCoefficients  no model — differential repetition only
-    anchoring/inline-anchoring-applier.go:ApplyAnchoring .... no model — differential repetition only
-    anchoring/inline-anchoring-applier.go:arithmeticAverage ×2  no model — differential repetition only
-        (the tools are ready: `foldlM_perm_agree` for per-key loops, `cumulated_map_order` is the same shape as
-         `arithmeticAverage`; `valuesRange_map_order` covers the range computation these functions call)
-    criteria-mixing/criteria-mixing.go:criteriaToMix.mix .... no model — differential repetition only
+    anchoring/anchoring.go:matchScalingWithBounding ......... per-key copy: mergeDisjoint_map_order shape; differential repetition
+    anchoring/ideal-reference-…:extractCriteriaValues ....... per-key copy; differential repetition
+    anchoring/ideal-reference-…:prepareCriteriaWithCoefficients  valuesRange_map_order for the ranges it calls; differential repetition
+    anchoring/inline-anchoring-applier.go:ApplyAnchoring .... inlineLoop_map_order, inlineOne_map_order (model `inlineStep`/`inlineOne`)
+    anchoring/inline-anchoring-applier.go:arithmeticAverage ×2  avgInner_map_order, arithmeticAverage_map_order (model `arithmeticAverage`)
+    criteria-mixing/criteria-mixing.go:criteriaToMix.mix .... mixValues_map_order (+ _lookups) (model `mixValues`)
 
   sorted-before-use sites
     choquet/choquet-integral.go:prepareCriteriaInAscendingOrder  choquetValue_map_order (full: ties and near-ties),
@@ -408,6 +407,61 @@ theorem facts_fresh : (Facts.staleFacts.all fun n => !["choquetEps"].contains n)
   onAdded_map_order, valuesRange_map_order, choquetDecompose_map_order, fetch/raw/signed/has_perm (consumers that
   only look keys up).
 -/
+
+/-! ## the map loops of criteria mixing and inline anchoring (sites formerly covered by repetition only) -/
+
+section AnchoringAndMixing
+variable {α : Type} [Num α]
+open Rdm.MapOrderAnch
+
+/-- **criteria mixing, `criteriaToMix.mix`** (`for a, c1Value := range c1Values`): for every listing of the two
+    rescaled-value maps the loop fails or succeeds alike, and on success yields a listing of the same map -/
+theorem mixValues_map_order (ρ : α) {v1 v1' v2 v2' : KMap α} (h1 : v1.Perm v1') (h2 : v2.Perm v2')
+    (hk2 : (v2.map Prod.fst).Nodup) :
+    R.Agree List.Perm (mixValues ρ v1 v2) (mixValues ρ v1' v2') :=
+  MapOrderAnch.mixValues_map_order ρ h1 h2 hk2
+
+/-- … so every lookup `mixingCore` makes in the result (`res.get? a.id`) is the same -/
+theorem mixValues_map_order_lookups (ρ : α) {v1 v1' v2 v2' : KMap α} (h1 : v1.Perm v1') (h2 : v2.Perm v2')
+    (hk2 : (v2.map Prod.fst).Nodup) {r r' : KMap α}
+    (hr : mixValues ρ v1 v2 = .ok r) (hr' : mixValues ρ v1' v2' = .ok r')
+    (hkr : (r.map Prod.fst).Nodup) : KMap.LookupEq r r' :=
+  MapOrderAnch.mixValues_map_order_lookups ρ h1 h2 hk2 hr hr' hkr
+
+/-- **inline anchoring, loop over `boundingsWithScales`**: new values and applied differences have the same
+    lookups, and the verdict is the same, for every listing of the scales map -/
+theorem inlineLoop_map_order (b : Bounding α) (avg old : KMap α) {sc sc' : KMap (Scale α)}
+    (h : sc.Perm sc') (hk : (sc.map Prod.fst).Nodup) (s : KMap α × KMap α) :
+    R.Agree PairEq (sc.foldlM (inlineStep b avg old) s) (sc'.foldlM (inlineStep b avg old) s) :=
+  MapOrderAnch.inlineLoop_map_order b avg old h hk s s (PairEq.refl s)
+
+/-- **inline anchoring, per-alternative body** (`arithmeticAverage` + the loop above) -/
+theorem inlineOne_map_order (b : Bounding α) {sc sc' : KMap (Scale α)} (h : sc.Perm sc')
+    (hk : (sc.map Prod.fst).Nodup) (p : AltDiffs α) :
+    R.Agree OneEq (inlineOne b sc p) (inlineOne b sc' p) :=
+  MapOrderAnch.inlineOne_map_order b h hk p
+
+/-- **`arithmeticAverage`, inner loop** (`for c, v := range a.Coefficients { sum[c] += v }`) -/
+theorem avgInner_map_order {m m' : KMap α} (h : m.Perm m') (hk : (m.map Prod.fst).Nodup) (w : KMap α) :
+    R.Agree KMap.LookupEq (m.foldlM avgStep w) (m'.foldlM avgStep w) :=
+  MapOrderAnch.avgInner_map_order h hk w w (KMap.LookupEq.refl w)
+
+/-- **`arithmeticAverage`**: same averaged coefficients (as lookups) and same verdict, whatever the listing of
+    each reference point's coefficient map (the points themselves are a slice: their order is the request's) -/
+theorem arithmeticAverage_map_order (points points' : List (String × KMap α))
+    (hl : points.length = points'.length)
+    (hz : ∀ p ∈ points.zip points', p.1.2.Perm p.2.2 ∧ (p.1.2.map Prod.fst).Nodup) :
+    R.Agree KMap.LookupEq (arithmeticAverage points) (arithmeticAverage points') :=
+  MapOrderAnch.arithmeticAverage_map_order points points' hl hz
+
+/-- the hypotheses are satisfiable and the conclusion is not vacuous: two listings of a two-key map -/
+example : R.Agree List.Perm (mixValues (1/4 : Rat) [("a", 1), ("b", 2)] [("a", 3), ("b", 5)])
+    (mixValues (1/4 : Rat) [("b", 2), ("a", 1)] [("b", 5), ("a", 3)]) :=
+  mixValues_map_order _ (List.Perm.swap _ _ _) (List.Perm.swap _ _ _) (by decide)
+example : (mixValues (1/4 : Rat) [("a", 1), ("b", 2)] [("a", 3), ("b", 5)]).toOption.isSome = true := by
+  decide +kernel
+
+end AnchoringAndMixing
 
 /-! ## END TO END: the whole response is a function of the request and of the seeds it names
 
